@@ -107,7 +107,8 @@ def run_case(case, w):
         for i, name in enumerate(devs):
             vals = [PRIMES[j] * (i + 1) * 10 + j for j in range(11)]
             if bval is not None:
-                vals[bval[0]] = bval[1]
+                for col_, v_ in (bval if isinstance(bval[0], (list, tuple)) else [bval]):
+                    vals[col_] = v_
             lay = layout if not (layout == 7 and DEVS[name]) else 14     # 2.6: 7 fields only on partition lines
             lines.append(disk_line(i, name, vals, lay))
             exp[name] = disk_ref(i, vals, lay)
@@ -133,6 +134,11 @@ def run_case(case, w):
             tot = {f: sum(exp[d][f] for d in whole) for f in DISK_FIELDS}
             if got[0] != "ok" or rec(got[1], DISK_FIELDS) != tot:
                 bad.append(("disk:total", "devices %r whole %r: got %r expected %r" % (devs, whole, freeze(got), tot)))
+            # the flag is a truth value: 0 / None ask for the totals like False does
+            for flag in (0, None):
+                got = outcome(psutil.disk_io_counters, perdisk=flag, nowrap=False)
+                if got[0] != "ok" or got[1] is None or isinstance(got[1], dict) or rec(got[1], DISK_FIELDS) != tot:
+                    bad.append(("disk:total:perdisk=%r" % (flag,), "devices %r whole %r: got %r expected %r" % (devs, whole, freeze(got), tot)))
     elif k == "disk-seq":
         # call 1: `name` is not in /sys/block (partition / not yet registered); call 2: it is a whole disk (and vice versa)
         name, first_whole = case[1], case[2]
@@ -349,6 +355,12 @@ def build_cases(thorough):
                 cases.append(("disk", list(combo), layout, None))
     for pair in itertools.permutations(["loop1", "loop10", "sda", "sdaa", "md1", "md10", "sda1"], 2):
         cases.append(("disk", list(pair), 20, None))
+    # whole disks that never read or wrote (only trimmed / flushed: busy time and merges may still be non-zero), and disks idle in
+    # every column: they are disks all the same
+    cases.append(("disk", ["sda", "sda1", "nvme0n1"], 20, [[0, 0], [4, 0]]))
+    cases.append(("disk", ["sda"], 20, [[0, 0], [4, 0]]))
+    cases.append(("disk", ["sda", "loop0"], 20, [[c_, 0] for c_ in range(11)]))
+    cases.append(("disk", ["sda", "sda1"], 14, [[c_, 0] for c_ in range(11)]))
     for col in range(11):
         for v in BOUND:
             if col in (2, 6) and v * 512 >= 2 ** 80:
